@@ -542,8 +542,8 @@ SPECS['C02'] = dict(
                'IMapUnorderedIterator._set', 'TaskHandler.body (set_length)', 'ApplyResult.get', 'billiard.einfo.ExceptionInfo/ExceptionWithTraceback/rebuild_exc'],
     bounds={'quick': 'n <= 3 items, chunk size 0(None)..2, pool of 1..2, at most one raising position, 3 symbolic scheduling events then run to completion',
             'thorough': 'n <= 5, chunk <= 6, any subset of raising positions, 5 events'},
-    outside=['"arguments and results unchanged up to pickling" for arbitrary objects (pickle is C; payloads are tagged tuples)', 'imap with chunksize > 1 '
-             '(flattening generator)', 'pool sizes above 2'],
+    outside=['"arguments and results unchanged up to pickling" for arbitrary objects (pickle is C; payloads are tagged tuples)', 'imap/imap_unordered with chunksize > 1 '
+             'and a raising item (one failing item fails its whole chunk and ends the flattening generator; non-raising inputs are covered)', 'pool sizes above 2'],
     assumptions=POOL_ASSUME + ['result payloads cross the fake pipe through pickle.loads(pickle.dumps(.))'],
     trusted_base=TRUST + ['pickle (C)'],
     obligations=(
@@ -636,8 +636,7 @@ SPECS['C16'] = dict(
     bounds={'quick': '(a) <= 3 items; (b) timeout -1(None)..20, clock deltas 0..40; (c) capacity 1, 1 producer x 1 item || feeder || consumer (get, task_done[, one '
                      'task_done too many]) || joiner, K = 35..48; (d) two threads x one put on a fresh Queue of capacity 2, every interleaving of their semaphore/lock operations and reads/writes of _thread', 'thorough': '(a) <= 5 items; (c) 2 producers'},
     outside=['item identity and per-producer order across the pipe (FIFO of whole messages is C13\'s guarantee; buffer order is (a))',
-             'item sizes larger than the pipe buffer; unpickled equality of arbitrary objects', 'SimpleQueue (a locked pipe: its two lock-wrapped '
-             'calls are not modelled separately)', 'more producers/consumers than listed'],
+             'item sizes larger than the pipe buffer; unpickled equality of arbitrary objects', 'more producers/consumers than listed'],
     assumptions=['the pipe delivers whole messages in order (C13)', 'the feeder thread of (c) is the two-step model "take from buffer, write to pipe" whose '
                  'real code is checked in (a)', 'semaphore model of C17'],
     trusted_base=TRUST + ['vlib/py2ts.py translator', 'pickle (C)'],
@@ -652,6 +651,9 @@ SPECS['C16'] = dict(
         smt('first-put-race', 'harness.c16', 'ob_q_feeder', 'two threads racing on the first put of a plain Queue (real Queue.put compiled, _thread a shared '
             'attribute, Queue._start_thread sliced from its source): exactly one feeder thread is started and neither item is dropped by a second start',
             timeout=(600, 1200), replay_function='replay_jq'),
+        smt('simplequeue', 'harness.c16', 'ob_simplequeue', 'SimpleQueue ("a locked pipe"): 2 producers || 2 consumers over the real put/get/send_payload/get_payload, a message '
+            'transfer being two steps (header, body): no writer or reader ever gets inside another one\'s message, everybody finishes, every message is taken once',
+            timeout=(900, 3000), replay_function='replay_jq'),
         smt('joinable-2', 'harness.c16', 'ob_jq_2', 'same with two producers', timeout=(3000, 7000), replay_function='replay_jq', thorough_only=True),
     ],
 )
